@@ -460,5 +460,17 @@ class MultiFileDirectives(CliLocationOrder):
         return fails
 
 
+def _bazel_layouts():
+    from rv.props.c19 import BazelLayouts
+
+    class BazelInputFiles(BazelLayouts):
+        """the Bazel front-end with one or two requirement inputs in different packages, each declaring a `--find-links`
+        directory of its own (relative to itself) that alone offers what the file requires: the option lines of *every*
+        input file are honoured, as on the command line"""
+        name = "bazel-input-files"
+        prop = "C16"
+    return BazelInputFiles()
+
+
 def streams():
-    return [ReaderStream(), FrontendStream(), MultiFileDirectives()]
+    return [ReaderStream(), FrontendStream(), MultiFileDirectives(), _bazel_layouts()]
